@@ -49,6 +49,9 @@ SHAPES = {
     "CO": ("one", "ASTNode | None = None", {}),
     # an optional child WITHOUT a default: it must be passed, and None may be passed (used instead of CO in the second scheme)
     "COK": ("one", "ASTNode | None = field(kw_only=True)", {}),
+    # an optional child spelled with None FIRST (used instead of CU in the second scheme; no other annotation of this process
+    # is the same union in another order, which typing would consider equal and a cache could answer from)
+    "CNF": ("one", "None | CF12 = None", {}),
     "CT": ("tuple", "tuple[ASTNode, ...] = ()", {}),
     "CU": ("one", "CL12 | CF12 | None = None", {}),
 }
@@ -68,7 +71,7 @@ class CF12(ASTNode):
 
 def hierarchies(tier):
     """Yield hierarchies: list of levels; a level is a list of (name, shape)."""
-    shapes = [x for x in SHAPES if x not in ("PH", "PCH", "COK")]
+    shapes = [x for x in SHAPES if x not in ("PH", "PCH", "COK", "CNF")]
     lvl1 = [[]] + [[(NAMES[0][0], s)] for s in shapes] + [[(NAMES[0][0], s), (NAMES[0][1], t)] for s in shapes for t in shapes]
     # the same two names declared the other way round: other classes of this process have the same field names and kinds
     # in another declaration order
@@ -96,7 +99,7 @@ def hierarchies(tier):
 RENAME = {"m": "_m", "c": "Zc", "x": "_x", "a": "a_", "k": "K9", "b": "_b"}
 
 
-RESHAPE = {"P": "PH", "PC": "PCH", "CO": "COK"}
+RESHAPE = {"P": "PH", "PC": "PCH", "CO": "COK", "CU": "CNF"}
 
 
 def renamed(h):
@@ -149,13 +152,13 @@ def spec_fields(h, level):
 
 def instance_variants(fl):
     """kwargs variants for the init child fields; properties keep their defaults (values 0 / 7)."""
-    kids = [(n, s) for n, s in fl if s in ("CO", "CT", "CU", "COK")]
+    kids = [(n, s) for n, s in fl if s in ("CO", "CT", "CU", "COK", "CNF")]
     yield "defaults", {n: None for n, s in kids if s == "COK"}
     if kids:
-        yield "present", {n: (CL12(1), CF12(), CL12(2)) if s == "CT" else CL12(3) for n, s in kids}
+        yield "present", {n: (CL12(1), CF12(), CL12(2)) if s == "CT" else (CF12() if s == "CNF" else CL12(3)) for n, s in kids}
         yield "falsy", {n: (CF12(),) if s == "CT" else CF12() for n, s in kids}
         if any(s == "CT" for _, s in kids):
-            yield "wide", {n: tuple(CL12(i) if i % 3 else CF12() for i in range(12)) if s == "CT" else CL12(3) for n, s in kids}
+            yield "wide", {n: tuple(CL12(i) if i % 3 else CF12() for i in range(12)) if s == "CT" else (CF12() if s == "CNF" else CL12(3)) for n, s in kids}
 
 
 def exp_props(fl, flags, sort):
